@@ -87,9 +87,9 @@ structure Settings where
 /-! ## device state and monad -/
 
 structure St where
-  data : List Nat          -- file contents
+  data : List UInt8        -- file contents
   pos : Nat                -- file position (may lie beyond the end after a seek)
-  rest : List Nat          -- = data.drop pos (kept so that sequential reads do not re-walk the file)
+  rest : List UInt8        -- = data.drop pos (kept so that sequential reads do not re-walk the file)
   failed : Bool            -- istream in fail state (every later read returns nothing, seeks are ignored)
   dev : Dev
   taint : Option String    -- first place where bytes a short read did not deliver were used as data
@@ -114,7 +114,7 @@ def getSt : M St := fun s => .ok (s, s)
 def readSome (n : Nat) : M (List Nat) := fun s =>
   if s.failed then .ok ([], s)
   else
-    let got := s.rest.take n
+    let got := (s.rest.take n).map UInt8.toNat
     let hitEnd := s.rest.isEmpty || got.length < n
     .ok (got, { s with pos := s.pos + got.length, rest := s.rest.drop n, failed := s.dev != .file && hitEnd })
 
@@ -1226,8 +1226,7 @@ inductive Fmt where
 
 /-- raw result: the monad's answer and the final state (the driver needs the taint separately) -/
 def runRaw (f : Fmt) (dev : Dev) (bytes : List UInt8) (st : Settings) : Except Stop (Img × St) :=
-  let data := bytes.map UInt8.toNat
-  let s0 : St := { data := data, pos := 0, rest := data, failed := false, dev := dev, taint := none }
+  let s0 : St := { data := bytes, pos := 0, rest := bytes, failed := false, dev := dev, taint := none }
   match f with
   | .bmp => (Bmp.run st).run s0
   | .pnm => (Pnm.run st).run s0
